@@ -41,7 +41,7 @@ CHECKS = {
         note=TRUST + "Plain, ZipCrypto (crate-written and independently encrypted) and AE-1/AE-2 entries.",
         tech="deterministic simulation: schedule exploration (the I/O fragmentation schedule is the quantified variable)"),
     "C10": dict(level="exploration", ref="DESIGN.md §4 C10",
-        text="The same bytes are read by the seekable reader (reference) and front-to-back from a non-seekable simulated stream with short reads; per entry a drawn consumption pattern (0, 1, k, all-1, all, all+reads after EOF) forces the drop-time drain to resynchronise from every decoder state; the visitor API must deliver files in order, then the central metadata once per entry in order; encrypted / data-descriptor entries must be refused; with bit rot inside ONE entry's data every other entry must still arrive exactly as through the seekable reader.",
+        text="The same bytes are read by the seekable reader (reference) and front-to-back from a non-seekable simulated stream with short reads; per entry a drawn consumption pattern (0, 1, k, all-1, all, all+reads after EOF) forces the drop-time drain to resynchronise from every decoder state; the visitor API must deliver files in order, then the central metadata once per entry in order; encrypted / data-descriptor entries must be refused; with bit rot inside ONE entry's data every other entry must still arrive exactly as through the seekable reader. A second scenario (stream_huge) streams writer output from the sparse disk: entries of 2^32-2 .. 2^32+1 bytes (large_file only where required, or always), archives starting around 4 GiB, more than 65535 entries.",
         note=TRUST + "The seekable reader's own fidelity is established by C01/C03.",
         tech="deterministic simulation: seeded histories of partial consumption on a simulated non-seekable stream vs the seekable reader"),
     "C11": dict(level="fault_enumeration", ref="DESIGN.md §4 C11",
